@@ -23,9 +23,13 @@ vars == <<l, ctx, bb, wb>>
 u == ctx.u
 p == ctx.p
 
-Fail(rule, info) == PrintT(<<"RULEFAIL", ctx.id, ctx.k, l, rule, info>>)
+\* one output line per report: PrintT of a string is never wrapped by TLC
+Line(kind, id, k, rest) == PrintT(kind \o "|" \o ToString(id) \o "|" \o ToString(k) \o "|" \o rest)
+Fail(rule, info) == Line("RULEFAIL", ctx.id, ctx.k, ToString(l) \o "|" \o rule \o "|" \o ToString(info))
 Check(ok, rule, info) == IF ok THEN TRUE ELSE Fail(rule, info)
-Cover(tags) == PrintT(<<"COVER", ctx.id, tags>>)
+RECURSIVE JoinTags(_)
+JoinTags(t) == IF t = <<>> THEN "" ELSE Head(t) \o (IF Len(t) > 1 THEN "," ELSE "") \o JoinTags(Tail(t))
+Cover(tags) == Line("COVER", ctx.id, ctx.k, JoinTags(tags))
 
 E(k) == l <= Len(Rec) /\ Rec[l].ev = k /\ l' = l + 1
 
@@ -54,8 +58,8 @@ Begin ==
   /\ LET r == Rec[l]
          base == IF r.fresh THEN BB0 ELSE [bb EXCEPT !.prevSolves = bb.prevSolves + 1]
      IN /\ ctx' = [id |-> r.id, k |-> r.k, u |-> r.u, p |-> r.p, cfg |-> r.cfg]
-        /\ PrintT(<<"BEGIN", r.id, r.k, r.profile>>)
-        /\ (IF WF(r.u, r.p) THEN TRUE ELSE PrintT(<<"RULEFAIL", r.id, r.k, l, "T_IllFormedInput", 0>>))
+        /\ Line("BEGIN", r.id, r.k, r.profile)
+        /\ (IF WF(r.u, r.p) THEN TRUE ELSE Line("RULEFAIL", r.id, r.k, ToString(l) \o "|T_IllFormedInput|0"))
         /\ bb' = [base EXCEPT !.kreqs = base.kreqs \cup Range(r.p.reqs),
                               !.knames = base.knames \cup Mentioned(r.u, r.p, 0),
                               !.cancelSeen = FALSE, !.cancelVal = 0, !.callsThisSolve = 0]
@@ -245,6 +249,15 @@ UnsatIds ==
 (***************************************************************************)
 SolvedVarsTrue == {SolvOfVar(x[1]) : x \in {y \in wb.A : y[2] = 1 /\ y[1] # 0}} \ {-1}
 
+\* a clause holds under the final assignment (unassigned variables read as
+\* false).  Lock / exclusion clauses about a directly named soft requirement are
+\* exempt: the property lets such a solvable ignore its own package's lock and
+\* exclusion list.
+ClauseHolds(i) ==
+  \/ \E x \in wb.cls[i].lits : x \in wb.A \/ (x[2] = 0 /\ <<x[1], 1>> \notin wb.A)
+  \/ /\ wb.cls[i].kind \in {"lock", "excluded"}
+     /\ \E x \in wb.cls[i].lits : x[1] # 0 /\ SolvOfVar(x[1]) \in Range(p.soft)
+
 ResultSat(r) ==
   LET S    == Range(r.sol)
       X    == Range(p.soft)
@@ -268,8 +281,8 @@ ResultSat(r) ==
   \* white box: the final assignment falsifies no clause, and the solution is
   \* exactly the solvable variables assigned true
   /\ (IF wb.on
-      THEN /\ Check(\A i \in DOMAIN wb.cls : \E x \in wb.cls[i].lits : x \in wb.A \/ (x[2] = 0 /\ <<x[1], 1>> \notin wb.A),
-                    "C01_DbNotSatisfied", {i \in DOMAIN wb.cls : ~\E x \in wb.cls[i].lits : x \in wb.A \/ (x[2] = 0 /\ <<x[1], 1>> \notin wb.A)})
+      THEN /\ Check(\A i \in DOMAIN wb.cls : ClauseHolds(i), "C01_DbNotSatisfied",
+                    {i \in DOMAIN wb.cls : ~ClauseHolds(i)})
            /\ Check(SolvedVarsTrue = S, "C05_SolutionNotTrail", <<r.sol, SolvedVarsTrue>>)
       ELSE TRUE)
   /\ Cover(<<"sat">> \o (IF cf /\ p.soft = <<>> THEN <<"conflictfree">> ELSE <<>>)
@@ -326,5 +339,5 @@ Spec == Init /\ [][Next]_vars
 \* every line of the file was consumed (a format / hook-stream problem otherwise)
 Accepted ==
   IF TLCGet("stats").diameter - 1 = Len(Rec) THEN TRUE
-  ELSE PrintT(<<"NOTCONSUMED", TLCGet("stats").diameter, Len(Rec)>>) /\ FALSE
+  ELSE PrintT("NOTCONSUMED|" \o ToString(TLCGet("stats").diameter) \o "|" \o ToString(Len(Rec))) /\ FALSE
 =============================================================================
